@@ -1,6 +1,8 @@
 #![forbid(unsafe_op_in_unsafe_fn)]
 
 mod castle_rights;
+#[cfg(rustyyato_chess_verif)]
+pub use castle_rights::CastleRights;
 pub mod fen;
 mod iter;
 pub mod raw;
@@ -730,6 +732,39 @@ impl Board {
         for pos in diff {
             self.zobrist ^= chess_lookup::zobrist(pos, piece, color);
         }
+    }
+}
+
+/// Read-only projections used by the external verification harness.
+#[cfg(rustyyato_chess_verif)]
+impl Board {
+    /// bit (side + 2 * color): 0 = K, 1 = Q, 2 = k, 3 = q
+    pub fn verif_castle_bits(&self) -> u8 {
+        let mut bits = 0;
+        for color in Color::all() {
+            for side in Side::all() {
+                if self.castle_rights.contains(side, color) {
+                    bits |= 1 << (side as u8 + 2 * color as u8);
+                }
+            }
+        }
+        bits
+    }
+
+    pub fn verif_ep_file(&self) -> Option<File> {
+        self.ep()
+    }
+
+    pub fn verif_pinned(&self) -> BitBoard {
+        self.pinned
+    }
+
+    pub fn verif_checkers(&self) -> BitBoard {
+        self.checkers
+    }
+
+    pub fn verif_piece_hash(&self) -> u64 {
+        self.zobrist
     }
 }
 
